@@ -87,7 +87,7 @@ func newReadOnlySegment(basePath string, baseOffset int64) (ReadOnlySegment, err
 	}
 
 	if ms.idx, err = ms.c.codec.ReadIndex(ms.c.idxPath); err != nil {
-		if !errors.Is(err, codec.ErrDataCorrupted) {
+		if !errors.Is(err, codec.ErrDataCorrupted) && !errors.Is(err, os.ErrNotExist) {
 			return nil, errors.Wrapf(err, "failed to decode segment index file %s", ms.c.idxPath)
 		}
 		slog.Warn("The segment index file is corrupted and the index is being rebuilt.", slog.String("path", ms.c.idxPath))
@@ -104,6 +104,9 @@ func newReadOnlySegment(basePath string, baseOffset int64) (ReadOnlySegment, err
 		}
 	}
 
+	if len(ms.idx) < 4 {
+		return nil, errors.Wrapf(codec.ErrDataCorrupted, "segment %s holds no entry", ms.c.txnPath)
+	}
 	ms.lastOffset = ms.c.baseOffset + int64(len(ms.idx)/4-1)
 
 	// recover the last crc
